@@ -88,7 +88,21 @@ class Node:
     def __str__(self):
         if isinstance(self.data, str):
             return self.data
-        return '(' + ' '.join(map(str, self.data)) + ')'
+        # non-recursive, the input may be nested arbitrarily deep
+        visit = [(self, False)]
+        args = [[]]
+        while visit:
+            expr, visited = visit.pop()
+            if expr.is_leaf():
+                args[-1].append(expr.data)
+            elif visited:
+                children = args.pop()
+                args[-1].append('(' + ' '.join(children) + ')')
+            else:
+                visit.append((expr, True))
+                visit.extend((x, False) for x in reversed(expr.data))
+                args.append([])
+        return args[0][0]
 
     def __repr__(self):
         if isinstance(self.data, str):
